@@ -39,6 +39,7 @@ include!("../coll_inc/elem.rs");
 include!("../coll_inc/ops.rs");
 include!("../coll_inc/exec.rs");
 include!("../coll_inc/split.rs");
+include!("../coll_inc/mapvec.rs");
 
 fn main() {
     let args: Vec<String> = std::env::args().collect();
@@ -59,6 +60,7 @@ fn main() {
     println!("# coll engine seed={} traces={traces} ops={nops} profile={profile}", seed());
     if profile == "split" {
         run_split_profile(&mut ctx, traces);
+        run_mapvec(&mut ctx);
         ctx.summary();
         print!("{}", ctx.out);
         return;
